@@ -77,6 +77,9 @@ func (c *Ctx) add(ci *CaseInfo) {
 const shardSize = 100
 
 func (c *Ctx) flush() error {
+	if c.outDir == "" {
+		return nil
+	}
 	if err := os.MkdirAll(c.outDir, 0o755); err != nil {
 		return err
 	}
